@@ -18,9 +18,12 @@ def T(id, props, file, old, new, count=1, note="", more=()):
     TWINS.append(dict(id=id, props=props, edits=[(file, old, new, count)] + list(more), note=note))
 
 
-def S(id, props, patch, expect, note=""):
-    """A seeded change written by an independent author (kept under /verif/seeded/<name>/patch.diff)."""
+def S(id, props, patch, expect, note="", silent=()):
+    """A seeded change written by an independent author (kept under /verif/seeded/<name>/patch.diff).
+    `silent`: properties the change does NOT break and whose checks must not react to it."""
     MUTANTS.append(dict(id=id, props=props, edits=[], patch=patch, expect=expect, note=note))
+    if silent:
+        TWINS.append(dict(id=id + "-silent", props=list(silent), edits=[], patch=patch, note=note))
 
 
 VM = "src/microjs/vm.py"
@@ -52,8 +55,8 @@ M("c01-compare-constant", ["C01"], VM,
   "if time.monotonic() - self.start_time > self.time_limit:\n                raise TimeLimitError", "if time.monotonic() - self.start_time > 3600:\n                raise TimeLimitError",
   [("C01", "C01-R2", "raise TimeLimitError")])
 M("c01-lookahead-poll-dropped", ["C01", "C10"], RV,
-  "        stack: List[Tuple] = []\n        step_count = 0\n\n        while True:\n            step_count += 1\n            if step_count % self.poll_interval == 0:\n                if self.poll_callback and self.poll_callback():\n                    raise RegexTimeoutError(\"Regex execution timed out\")\n\n            if len(stack) > self.stack_limit:\n                raise RegexStackOverflow(\"Regex stack overflow\")\n\n            if pc >= end_pc:\n                return None\n",
-  "        stack: List[Tuple] = []\n        step_count = 0\n\n        while True:\n            step_count += 1\n\n            if len(stack) > self.stack_limit:\n                raise RegexStackOverflow(\"Regex stack overflow\")\n\n            if pc >= end_pc:\n                return None\n",
+  "        stack: List[Tuple] = []\n        step_count = 0\n\n        while True:\n            step_count += 1\n            if step_count % self.poll_interval == 0:\n                if self.poll_callback and self.poll_callback():\n                    raise RegexTimeoutError(\"Regex execution timed out\")\n\n            # Same hard step limit as the main matcher (ReDoS protection)\n            if step_count > self.step_limit:\n                return None\n",
+  "        stack: List[Tuple] = []\n        step_count = 0\n\n        while True:\n            step_count += 1\n\n            # Same hard step limit as the main matcher (ReDoS protection)\n            if step_count > self.step_limit:\n                return None\n",
   [("C01", "C01-R3", "_execute_lookahead")])
 M("c01-main-poll-only-unanchored", ["C01"], RV,
   "            if step_count % self.poll_interval == 0:\n                if self.poll_callback and self.poll_callback():\n                    raise RegexTimeoutError(\"Regex execution timed out\")\n\n            # Hard step limit",
@@ -66,7 +69,7 @@ M("c01-create-vm-drops-callback", ["C01"], RR,
   "            self.flags,\n            self._poll_callback,\n", "            self.flags,\n            None,\n",
   [("C01", "C01-R4", "RegexVM")])
 M("c01-search-untranslated", ["C01", "C20"], VM,
-  "            try:\n                vm_regex = regex_internal._create_vm()\n                result = vm_regex.search(s, 0)\n                return result.index if result else -1\n            except RegexTimeoutError:\n                raise TimeLimitError(\"Regex execution timeout\")",
+  "            try:\n                vm_regex = regex_internal._create_vm()\n                result = vm_regex.search(s, 0)\n                return result.index if result else -1\n            except RegexTimeoutError:\n                raise TimeLimitError(\"Regex execution timeout\")\n            except RegexStackOverflow:\n                raise JSRangeError(\"Regular expression too complex\")",
   "            vm_regex = regex_internal._create_vm()\n            result = vm_regex.search(s, 0)\n            return result.index if result else -1",
   [("C01", "C01-R5", r"search:vm_regex\.search"), ("C20", "C20-R3a", r"search:vm_regex\.search")])
 M("c01-translate-to-jserror", ["C01"], VM,
@@ -78,7 +81,7 @@ M("c01-widen-except-jserror", ["C01"], VM,
   "            except (JSTypeError, JSError) as e:\n                # Convert Python errors to JavaScript TypeError\n                self._handle_python_exception(\"TypeError\", str(e))",
   [("C01", "C01-R6", r"VM\._execute:except")])
 M("c01-eval-swallows-limits-again", ["C01"], CX,
-  "                return vm.run(bytecode_module)\n            except (TimeLimitError, MemoryLimitError):\n                raise\n            except Exception as e:",
+  "                return vm.run(bytecode_module)\n            except JSError:\n                # Syntax errors, uncaught script errors and limit errors keep their class\n                raise\n            except Exception as e:",
   "                return vm.run(bytecode_module)\n            except Exception as e:",
   [("C01", "C01-R6", "eval_fn")])
 M("c01-eval-fresh-clock", ["C01"], CX,
@@ -245,9 +248,9 @@ M("c13-nonblock-misses-switch", ["C13"], PA,
   [("C13", "C13-R4", "statement-dispatch")])
 
 # ------------------------------------------------------------------ C07 / C08 / C09 / C10
-M("c07-rangeerror-not-converted", ["C07"], VM,
+T("t-rangeerror-clause-folded-into-generic", ["C07"], VM,
   "            except JSRangeError as e:\n                # Convert Python JSRangeError to JavaScript RangeError\n                self._handle_python_exception(\"RangeError\", str(e))\n", "",
-  [("C07", "C07-R5", "JSRangeError")])
+  note="the generic JSError clause converts a RangeError under its own name")
 M("c07-wrong-constructor-name", ["C07"], VM,
   "self._handle_python_exception(\"ReferenceError\", str(e))", "self._handle_python_exception(\"TypeError\", str(e))",
   [("C07", "C07-R7", "JSReferenceError")])
@@ -378,7 +381,93 @@ T("t-new-opcode-nop", ["C02", "C04", "C05", "C14"], "src/microjs/opcodes.py",
   "    STORE_CELL = auto()  # Store to cell: arg = cell slot (for outer function)\n", "    STORE_CELL = auto()  # Store to cell: arg = cell slot (for outer function)\n    NOP = auto()  # No operation\n",
   more=[(VM, "        elif op == OpCode.CATCH:\n            # Exception is on stack\n            pass\n", "        elif op == OpCode.CATCH:\n            # Exception is on stack\n            pass\n\n        elif op == OpCode.NOP:\n            pass\n", 1)])
 T("t-regex-limits-helper", ["C01", "C10"], RV,
-  "            step_count += 1\n            if step_count % self.poll_interval == 0:\n                if self.poll_callback and self.poll_callback():\n                    raise RegexTimeoutError(\"Regex execution timed out\")\n\n            if len(stack) > self.stack_limit:\n                raise RegexStackOverflow(\"Regex stack overflow\")\n\n            if pc >= end_pc:\n                return False\n",
-  "            step_count += 1\n            self._poll(step_count)\n\n            if len(stack) > self.stack_limit:\n                raise RegexStackOverflow(\"Regex stack overflow\")\n\n            if pc >= end_pc:\n                return False\n",
+  "            step_count += 1\n            if step_count % self.poll_interval == 0:\n                if self.poll_callback and self.poll_callback():\n                    raise RegexTimeoutError(\"Regex execution timed out\")\n\n            # Same hard step limit as the main matcher (ReDoS protection)\n            if step_count > self.step_limit:\n                return False\n",
+  "            step_count += 1\n            self._poll(step_count)\n\n            # Same hard step limit as the main matcher (ReDoS protection)\n            if step_count > self.step_limit:\n                return False\n",
   more=[(RV, "    def _backtrack(self, stack: List[Tuple]) -> Tuple:\n", "    def _poll(self, step_count: int) -> None:\n        if step_count % self.poll_interval == 0:\n            if self.poll_callback and self.poll_callback():\n                raise RegexTimeoutError(\"Regex execution timed out\")\n\n    def _backtrack(self, stack: List[Tuple]) -> Tuple:\n", 1)],
   note="poll moved into a helper that receives the local counter")
+
+# ------------------------------------------------------------------ rules added after the seeded changes
+M("c10-jsregexp-init-no-conversion", ["C10"], VA,
+  "        try:\n            self._internal = InternalRegExp(pattern, flags, poll_callback)\n        except RegExpError as e:\n            raise JSSyntaxError(f\"Invalid regular expression: /{pattern}/: {e}\")\n",
+  "        self._internal = InternalRegExp(pattern, flags, poll_callback)\n",
+  [("C10", "C10-R1$", "regexp_constructor_fn")])
+M("c10-test-no-overflow-translation", ["C10"], VM,
+  "                return re.test(string)\n            except RegexTimeoutError:\n                raise TimeLimitError(\"Regex execution timeout\")\n            except RegexStackOverflow:\n                raise JSRangeError(\"Regular expression too complex\")\n",
+  "                return re.test(string)\n            except RegexTimeoutError:\n                raise TimeLimitError(\"Regex execution timeout\")\n",
+  [("C10", "C10-R1b", "test_fn")])
+M("c10-lookahead-step-limit-dropped", ["C10"], RV,
+  "            # Same hard step limit as the main matcher (ReDoS protection)\n            if step_count > self.step_limit:\n                return None\n",
+  "",
+  [("C10", "C10-R2$", r"_execute_lookahead:matcher-loop:step-budget")])
+M("c07-generic-handler-swallows-limits", ["C01"], VM,
+  "            except (TimeLimitError, MemoryLimitError):\n                raise\n            except JSError as e:",
+  "            except JSError as e:",
+  [("C01", "C01-R6", "_execute")])
+M("c07-syntax-error-not-converted", ["C07", "C19"], VM,
+  "            except JSError as e:\n                # Any other engine error raised while running (a SyntaxError from\n                # eval, new Function, JSON.parse or new RegExp, an error from a\n                # nested evaluation) is catchable by an enclosing try/catch\n                if not self.exception_handlers:\n                    raise\n                self._handle_python_exception(e.name, e.message)\n",
+  "",
+  [("C07", "C07-R5", "JSSyntaxError"), ("C19", "C19-R2", "JSSyntaxError")])
+M("c09-lookahead-shallow-snapshot", ["C09"], RV,
+  "                    (alt_pc, sp, [c.copy() for c in captures], registers.copy())",
+  "                    (alt_pc, sp, captures.copy(), registers.copy())",
+  [("C09", "C09-R4", "snapshots")], count=3)
+M("c09-registers-alias-snapshot", ["C09"], RV,
+  "                    (pc + 1, sp, [c.copy() for c in captures], registers.copy())",
+  "                    (pc + 1, sp, [c.copy() for c in captures], registers)",
+  [("C09", "C09-R4", "snapshots")], count=3)
+T("t-snapshot-list-ctor", ["C09"], RV,
+  "                    (alt_pc, sp, [c.copy() for c in captures], registers.copy())",
+  "                    (alt_pc, sp, [list(c) for c in captures], list(registers))", count=3)
+M("c20-copy-in-constant-for-nonglobal", ["C20"], VA,
+  "        self._internal.lastIndex = self.lastIndex\n        result = self._internal.test(string)",
+  "        self._internal.lastIndex = self.lastIndex if self._internal.global_ else 0\n        result = self._internal.test(string)",
+  [("C20", "C20-R1", "JSRegExp.test")])
+T("t-copy-in-clamped-for-global-only", ["C20"], VA,
+  "        self._internal.lastIndex = self.lastIndex\n        result = self._internal.test(string)",
+  "        if self._internal.global_ or self._internal.sticky:\n            self._internal.lastIndex = max(0, self.lastIndex) if self.lastIndex == self.lastIndex else 0\n        else:\n            self._internal.lastIndex = self.lastIndex\n        result = self._internal.test(string)")
+M("c04-reduce-stale-bound", ["C04", "C17"], VM,
+  "                if i >= len(arr._elements):\n                    break  # the callback shortened the array\n",
+  "",
+  [("C04", "C04-R6", "reduce_fn"), ("C17", "C17-R9", "reduce_fn")])
+T("t-reduce-guard-wraps-body", ["C04", "C17"], VM,
+  "                if i >= len(arr._elements):\n                    break  # the callback shortened the array\n                elem = arr._elements[i]\n                acc = vm._call_callback(callback, [acc, elem, i, arr])\n",
+  "                if i < len(arr._elements):\n                    elem = arr._elements[i]\n                    acc = vm._call_callback(callback, [acc, elem, i, arr])\n")
+M("c07-catch-handler-pops-record", ["C07"], VM,
+  "        elif op == OpCode.CATCH:\n            # Exception is on stack\n            pass\n",
+  "        elif op == OpCode.CATCH:\n            # Exception is on stack\n            if self.exception_handlers:\n                self.exception_handlers.pop()\n",
+  [("C07", "C07-R2c", "CATCH")])
+M("c17-cached-elements-alias", ["C17"], VM,
+  "        def forEach_fn(*args):\n",
+  "        elements = arr._elements\n\n        def forEach_fn(*args):\n",
+  [("C17", "C17-R8", "field-alias")],
+  more=[(VM, "            for i, elem in enumerate(arr._elements):\n                vm._call_callback(callback, [elem, i, arr])\n            return UNDEFINED\n", "            for i, elem in enumerate(elements):\n                vm._call_callback(callback, [elem, i, arr])\n            return UNDEFINED\n", 1)])
+M("c02-arrow-forgets-try-stack", ["C02", "C05", "C07"], CO,
+  "        self.loop_stack = old_loop_stack\n        self.try_stack = old_try_stack\n        self.source_map = old_source_map\n        self._in_function = old_in_function\n        self._free_vars = old_free_vars",
+  "        self.loop_stack = old_loop_stack\n        self.source_map = old_source_map\n        self._in_function = old_in_function\n        self._free_vars = old_free_vars",
+  [("C02", "C02-R10", "try_stack"), ("C05", "C05-R5", "try_stack"), ("C07", "C07-R4c", "try_stack")], count=2)
+
+# ------------------------------------------------------------------ seeded changes (independent authors)
+S("seed-C01-a", ["C01"], "seeded/C01-a/patch.diff", [("C01", "C01-R6", "_call_callback")])
+S("seed-C01-b", ["C01"], "seeded/C01-b/patch.diff", [("C01", "C01-R(2|4|7)", ".")], silent=["C15"], note="C15 must stay silent: the helper only compares the clock")
+S("seed-C02-a", ["C02"], "seeded/C02-a/patch.diff", [("C02", "C02-R1$", "MemoryLimitError")])
+S("seed-C02-b", ["C02"], "seeded/C02-b/patch.diff", [("C02", "C02-R10", "_has_pending_state")])
+S("seed-C03-a", ["C03"], "seeded/C03-a/patch.diff", [("C03", "C03-R3b", "this_val")])
+S("seed-C04-a", ["C04", "C14"], "seeded/C04-a/patch.diff", [("C04", "C04-R3", "decoder"), ("C14", "C14-R3", "decoder")])
+S("seed-C05-a", ["C05"], "seeded/C05-a/patch.diff", [("C05", "C05-R3", "ContinueStatement:crossing")])
+S("seed-C05-b", ["C05"], "seeded/C05-b/patch.diff", [("C05", "C05-R4", "conditional")])
+S("seed-C06-a", ["C06"], "seeded/C06-a/patch.diff", [("C06", "C06-R4", "_to_u?int32")])
+S("seed-C07-a", ["C07"], "seeded/C07-a/patch.diff", [("C07", "C07-R4b", "finally-scope")])
+S("seed-C07-b", ["C07"], "seeded/C07-b/patch.diff", [("C07", "C07-R2c", "TRY_START")])
+S("seed-C08-a", ["C08"], "seeded/C08-a/patch.diff", [("C08", "C08-R7", "_chain")])
+S("seed-C09-a", ["C09"], "seeded/C09-a/patch.diff", [("C09", "C09-R4", "_execute_lookahead")])
+S("seed-C10-a", ["C10"], "seeded/C10-a/patch.diff", [("C10", "C10-R2a", "matcher-loop")])
+S("seed-C11-a", ["C11"], "seeded/C11-a/patch.diff", [("C11", "C11-R5b", "seen-set-scope")])
+S("seed-C12-a", ["C12"], "seeded/C12-a/patch.diff", [("C12", "C12-R3", "_current_vm|_vm")])
+S("seed-C13-a", ["C13"], "seeded/C13-a/patch.diff", [], note="documented gap: an off-by-one in a comment-scanning offset is a value-level change")
+S("seed-C14-a", ["C14"], "seeded/C14-a/patch.diff", [("C14", "C14-R1", "16-bit")])
+S("seed-C15-a", ["C15"], "seeded/C15-a/patch.diff", [("C15", "C15-R1b", "num_locals")])
+S("seed-C16-a", ["C16"], "seeded/C16-a/patch.diff", [], note="documented gap: which replacement patterns expand is a value-level table")
+S("seed-C17-a", ["C17"], "seeded/C17-a/patch.diff", [("C17", "C17-R8", "field-alias")], silent=["C04"], note="C04 must stay silent")
+S("seed-C18-a", ["C18"], "seeded/C18-a/patch.diff", [], note="documented gap: the exponent threshold is a numeric constant")
+S("seed-C19-a", ["C19"], "seeded/C19-a/patch.diff", [("C19", "C19-R4b", "guard-state")])
+S("seed-C20-a", ["C20"], "seeded/C20-a/patch.diff", [("C20", "C20-R1", "sync")], silent=["C04"], note="C04 must stay silent: the int() operand is guarded against NaN and both infinities")
